@@ -76,9 +76,11 @@ def shuffle_hyperedges(S, order, p, seed=None):
     for id_, members in d_hyperedges.items():
         if random.random() <= p:
             H.remove_edge(id_)
-            new_hyperedge = tuple(random.sample(nodes, order + 1))
+            # member sets are stored as sets: compare like with like, a tuple
+            # never equals a set and the loop would never reject anything
+            new_hyperedge = set(random.sample(nodes, order + 1))
             while new_hyperedge in H._edge.values():
-                new_hyperedge = tuple(random.sample(nodes, order + 1))
+                new_hyperedge = set(random.sample(nodes, order + 1))
             H.add_edge(new_hyperedge)
 
     return H
